@@ -17,6 +17,13 @@ Theorem C12_action_invocations : forall m tm r c dev recips ab,
   map log_id (o_log (action_update m tm r c dev recips ab)) = action_ids r c dev ab.
 Proof. exact action_update_ids. Qed.
 
+(* ---- lifted to whole frames (Proofs/FrameLiftP.v): the evaluation sequence of ContextInstances::update ---- *)
+From BEI Require Import Model.Frame Spec.Events Spec.ReadSpec Proofs.StateP Proofs.ActionP Proofs.InstanceP Proofs.ConsumeP Proofs.RegistryP Proofs.FanoutP Proofs.FrameLiftP.
+Theorem C12_frame_invocation_log : forall tm r c gs,
+  map log_id (ro_log (reg_update tm r c gs)) =
+  flat_map (fun e => action_ids r (er_consumed e) (er_dev e) (er_bind e)) (evaluations tm r c gs).
+Proof. exact reg_update_ids. Qed.
+
 Example C12_nonvacuous :
   let b1 := mkIbind (IKey 0 0) [(1, MDeltaScale)] [(2, c_press (1#2))] false in
   let b2 := mkIbind (IKey 1 0) [(3, MDeltaScale)] [(4, c_script (KBlocker false) [SNone])] true in
@@ -28,3 +35,4 @@ Proof. split; reflexivity. Qed.
 Print Assumptions C12_modifiers_all_in_order.
 Print Assumptions C12_conditions_all_in_order.
 Print Assumptions C12_action_invocations.
+Print Assumptions C12_frame_invocation_log.
